@@ -67,6 +67,8 @@ class WirePlugin:
 
     def call_other(self, ex, tag, pos, kw, st, node):
         if tag[0] == "wrapper_cls":
+            if not pos and not kw:
+                return None
             if pos or list(kw) != ["value"]:
                 raise Unsupported("wrapper constructor call shape")
             r = PyObj.PMsg(fresh("wrap_msg", IntS))
